@@ -328,6 +328,107 @@ func handlerScenario(sp handlerSpec) *explore.Scenario {
 	}}
 }
 
+// The reply cannot be prepared or published at the first handling (topic generator, ModifyNotificationMessage or
+// the publisher fails once): the command is not acknowledged without a published reply, whatever
+// AckCommandErrors says (that flag is about handler errors); it is redelivered and then answered.
+func replyFaultScenario(ackErrors bool, c int) *explore.Scenario {
+	return &explore.Scenario{Name: fmt.Sprintf("handler/reply-cannot-be-sent-once/ackerrors=%v", ackErrors), C: c, DataOnly: c < 0, Body: func() {
+		fault := []string{"topic generator", "ModifyNotificationMessage", "publisher", "publisher, error handler passes the error on"}[vs.Choose(4, 0, "what fails at the first handling")]
+		jm := cqrs.JSONMarshaler{}
+		cmdMsg, _ := jm.Marshal(&Cmd{ID: "c1"})
+		cmdMsg.UUID = "cmd1"
+		cmdMsg.Metadata.Set(requestreply.OperationIDMetadataKey, "op1")
+		sub := hx.NewScriptSub("commands", map[string][]*message.Message{"commands": {cmdMsg}})
+		sub.Redeliver = 3
+		pub := hx.NewScriptPub("replies")
+		pub.Outcome = func(call int, topic string, msgs []*message.Message) hx.PubOutcome {
+			if strings.HasPrefix(fault, "publisher") && call == 0 {
+				return hx.PubErr
+			}
+			return hx.PubOK
+		}
+		handlings := 0
+		failOnce := func(what string) error {
+			if fault == what && handlings == 1 {
+				return errors.New(what + " fails")
+			}
+			return nil
+		}
+		cfg := requestreply.PubSubBackendConfig{
+			Publisher:              pub,
+			SubscriberConstructor:  func(requestreply.PubSubBackendSubscribeParams) (message.Subscriber, error) { return nil, nil },
+			GenerateSubscribeTopic: func(requestreply.PubSubBackendSubscribeParams) (string, error) { return "reply", nil },
+			GeneratePublishTopic: func(requestreply.PubSubBackendPublishParams) (string, error) {
+				return "reply", failOnce("topic generator")
+			},
+			ModifyNotificationMessage: func(*message.Message, requestreply.PubSubBackendOnCommandProcessedParams) error {
+				return failOnce("ModifyNotificationMessage")
+			},
+			AckCommandErrors: ackErrors,
+		}
+		if fault == "publisher, error handler passes the error on" {
+			cfg.ReplyPublishErrorHandler = func(topic string, m *message.Message, err error) error { return err }
+		}
+		backend, err := requestreply.NewPubSubBackend[Res](cfg, marshaler)
+		if err != nil {
+			vs.Fail("setup", "%v", err)
+			return
+		}
+		r, _ := message.NewRouter(message.RouterConfig{}, nil)
+		proc, err := cqrs.NewCommandProcessorWithConfig(r, cqrs.CommandProcessorConfig{
+			GenerateSubscribeTopic: func(cqrs.CommandProcessorGenerateSubscribeTopicParams) (string, error) { return "commands", nil },
+			SubscriberConstructor:  func(cqrs.CommandProcessorSubscriberConstructorParams) (message.Subscriber, error) { return sub, nil },
+			Marshaler:              jm,
+		})
+		if err != nil {
+			vs.Fail("setup", "%v", err)
+			return
+		}
+		err = proc.AddHandlers(requestreply.NewCommandHandlerWithResult[Cmd, Res]("h", backend, func(ctx context.Context, c *Cmd) (Res, error) {
+			handlings++
+			return Res{Val: fmt.Sprintf("r%d", handlings)}, nil
+		}))
+		if err != nil {
+			vs.Fail("setup", "%v", err)
+			return
+		}
+		go func() {
+			if err := r.Run(context.Background()); err != nil {
+				vs.Fail("run-result", "%v", err)
+			}
+		}()
+		<-r.Running()
+		vs.Quiesce()
+		okReplies := 0
+		for _, c := range pub.Snapshot() {
+			if c.Outcome == hx.PubOK {
+				okReplies += len(c.Msgs)
+			}
+		}
+		ds := sub.Snapshot()
+		state := ""
+		acked := 0
+		for _, d := range ds {
+			st := hx.SettlementOf(d.Msg)
+			state += st + " "
+			if st == "acked" {
+				acked++
+			}
+		}
+		cfgs := fmt.Sprintf("AckCommandErrors=%v, %s fails at the first handling", ackErrors, fault)
+		if len(ds) < 1 || hx.SettlementOf(ds[0].Msg) != "nacked" {
+			vs.Fail("command-settlement", "%s: no reply was published for the first delivery, yet the command is [%s] (it must be nacked)", cfgs, state)
+		}
+		if acked > okReplies {
+			vs.Fail("command-settlement", "%s: %d deliveries acked but only %d replies published", cfgs, acked, okReplies)
+		}
+		if len(ds) != 2 || handlings != 2 || okReplies != 1 || acked != 1 {
+			vs.Fail("reply-per-invocation", "%s: %d deliveries [%s], %d handlings, %d replies published: expected the redelivered command to be handled and answered once", cfgs, len(ds), state, handlings, okReplies)
+		}
+		vs.Note("%s: %s", cfgs, state)
+	}}
+}
+
 // ---- family C: end to end on a shared reply topic ------------------------------------------------------------
 
 func e2eScenario(R int, replies bool, c int) *explore.Scenario {
@@ -583,6 +684,15 @@ func init() {
 				})
 			}
 		}
+	}
+	for _, ack := range []bool{false, true} {
+		ack := ack
+		reg.AddW("C18", replyFaultScenario(ack, -1).Name, reg.Quick, 5, func(t reg.Tier) *explore.Scenario {
+			if t == reg.Thorough {
+				return replyFaultScenario(ack, 0)
+			}
+			return replyFaultScenario(ack, -1)
+		})
 	}
 	reg.AddW("C18", e2eScenario(1, false, 0).Name, reg.Quick, 10, func(t reg.Tier) *explore.Scenario { return e2eScenario(1, false, 0) })
 	reg.AddW("C18", e2eScenario(2, false, -1).Name, reg.Quick, 10, func(t reg.Tier) *explore.Scenario { return e2eScenario(2, false, -1) })
